@@ -77,7 +77,7 @@ impl FrameStore {
 
 #[cfg(kani)]
 #[path = "/verif/harness/rip-tui/frame_store.rs"]
-mod verif_kani;
+pub mod verif_kani;
 
 #[cfg(test)]
 mod tests {
